@@ -77,6 +77,16 @@ def fam_auto(seed, n):
         nodes = {'n0': NodeSpec(['ao'], {}), 'n1': NodeSpec(['li'], {})}
         edges = [EdgeSpec('n0/ao/x', 'n1/li/u', fp()), EdgeSpec('n1/li/x', 'n0/ao/u', fp())]
         out.append((f"FA:{seed}:{k}:npar={npar}", ModelSpec('m', ops, nodes, edges, note=f"auto export, {npar} parameters")))
+    # a rational exponent (x^(1/3) must not become an integer division in Fortran); the DFDU block of this program is
+    # outside the AD engine (power 1/3) and is reported as inconclusive
+    fp = FP()
+    e = X.add(X.mul(X.neg(V('p0')), X.rpw(X.call('absv', V('x')), F(1, 3))), X.mul(V('p1'), V('u')))
+    rp = OpSpec('ao', [('x', 'de', e)], {'x': ('state', fp()), 'u': ('input', fp()), 'p0': ('const', fp()),
+                                         'p1': ('const', fp())}, output='x')
+    ops = {'ao': rp, 'li': families.op_leaky(fp)}
+    out.append((f"FA:{seed}:rational-power", ModelSpec(
+        'm', ops, {'n0': NodeSpec(['ao'], {}), 'n1': NodeSpec(['li'], {})},
+        [EdgeSpec('n0/ao/x', 'n1/li/u', fp()), EdgeSpec('n1/li/x', 'n0/ao/u', fp())], note='auto export, rational exponent')))
     # more than nine state variables, nonlinear in the high-numbered ones (two-digit y(k) in DFDU/DFDP expressions)
     for k in range(max(1, n // 8)):
         fp = FP()
